@@ -38,6 +38,7 @@ ASSUMPTIONS = [
     'code uses the last; with one they agree)',
     'row dicts always name the last column (shape is inferred from keys)',
 ]
+ANCHORS = ['Table._to_sparse', 'coo_arrays_to_sparse', 'list_list_to_sparse', 'nparray_to_sparse', 'list_nparray_to_sparse', 'list_sparse_to_sparse', 'list_dict_to_sparse', 'dict_to_sparse', 'Table.from_adjacency', 'parse_uc', '_from_uc', 'errcheck']
 REQUIRED = ['families', 'forms_compared', 'form_dict_unordered',
             'form_triples_with_zeros', 'form_bool', 'form_int',
             'adjacency_cases', 'uc_cases', 'uc_cli_cases',
